@@ -265,3 +265,6 @@ export const Component = {
 
 export const isComponent = (n) => !!(n && n._$isComponent)
 export const isNativeNode = (n) => !!(n && n.kind === 'el' && !n._$isComponent)
+
+// tmpl/index.ts imports this for external components (never instantiated here)
+export class GlassEaselTemplateDOM {}
